@@ -133,3 +133,15 @@ func Spawned() int { return 0 }
 
 // Symbolic reports whether the harness runs under the symbolic executor.
 func Symbolic() bool { return false }
+
+// And / Or combine conditions without control flow (one solver term instead of a fork per operand).
+func And(a, b bool) bool { return a && b }
+func Or(a, b bool) bool  { return a || b }
+
+// Ite selects without control flow.
+func Ite(c bool, a, b int) int {
+	if c {
+		return a
+	}
+	return b
+}
